@@ -1383,3 +1383,66 @@ func reachesAvoiding(from, to, avoid *ssa.BasicBlock) bool {
 	}
 	return false
 }
+
+// ---------------------------------------------------------------------------
+// control conditions of a block and their evaluation for a given length
+
+// factsAt lists the branch facts (condition value, polarity) known at block b, NOT-chains stripped.
+func (p *Prog) factsAt(b *ssa.BasicBlock) []fact {
+	var out []fact
+	for ft := range p.facts(b.Parent()).in[b] {
+		v, val := ft.v, ft.val
+		for {
+			u, ok := v.(*ssa.UnOp)
+			if !ok || u.Op != token.NOT {
+				break
+			}
+			v, val = u.X, !val
+		}
+		out = append(out, fact{v, val})
+	}
+	return out
+}
+
+// evalLenExpr evaluates an integer expression built from len(x) (with isX(x)), integer constants, + and -, for
+// len(x) = n.
+func evalLenExpr(v ssa.Value, isX func(ssa.Value) bool, n int64) (int64, bool) {
+	switch y := v.(type) {
+	case *ssa.Const:
+		return constInt(y)
+	case *ssa.Call:
+		if calleeName(y) == "builtin:len" && isX(resolve(y.Call.Args[0], y)) {
+			return n, true
+		}
+	case *ssa.BinOp:
+		a, ok1 := evalLenExpr(y.X, isX, n)
+		b, ok2 := evalLenExpr(y.Y, isX, n)
+		if ok1 && ok2 {
+			switch y.Op {
+			case token.ADD:
+				return a + b, true
+			case token.SUB:
+				return a - b, true
+			}
+		}
+	}
+	return 0, false
+}
+
+// evalLenCond evaluates a comparison of two len-expressions for len(x) = n.
+func evalLenCond(v ssa.Value, isX func(ssa.Value) bool, n int64) (bool, bool) {
+	bo, ok := v.(*ssa.BinOp)
+	if !ok {
+		return false, false
+	}
+	a, ok1 := evalLenExpr(bo.X, isX, n)
+	b, ok2 := evalLenExpr(bo.Y, isX, n)
+	if !ok1 || !ok2 {
+		return false, false
+	}
+	switch bo.Op {
+	case token.LSS, token.LEQ, token.GTR, token.GEQ, token.EQL, token.NEQ:
+		return evalCmp(bo.Op, a, b), true
+	}
+	return false, false
+}
